@@ -136,7 +136,7 @@ func (g *Gen) genesis() *Genesis {
 	p.ProvDeposit = Coin{1, g.oneOf(big.NewInt(0), big.NewInt(10), big.NewInt(1000))}
 	p.ProvShare = g.share()
 	p.NodeDeposit = Coin{1 + g.pick(2), g.oneOf(big.NewInt(0), big.NewInt(10), big.NewInt(1000))}
-	p.NodeActive = g.oneOf(bmul(sec, 30), hr, big.NewInt(100), bmul(hr, 24*30))
+	p.NodeActive = g.oneOf(bmul(sec, 30), hr, hr, big.NewInt(100), bmul(hr, 24*30), bmul(hr, 24*30))
 	p.MaxGb, p.MinGb = g.boundPair()
 	p.MaxHr, p.MinHr = g.boundPair()
 	p.MinSubGb = big.NewInt(int64(1 + g.pick(2)))
@@ -257,13 +257,13 @@ func (g *Gen) nextTime() *big.Int {
 		t = badd(ds[0], big.NewInt(1))
 	case len(ds) > 1 && x < 0.46:
 		t = ds[g.pick(len(ds))]
-	case x < 0.78:
+	case x < 0.84:
 		t = badd(g.now, big.NewInt(int64(1+g.pick(20000000000))))
-	case x < 0.83:
+	case x < 0.88:
 		t = badd(g.now, big.NewInt(1))
-	case x < 0.91:
+	case x < 0.955:
 		t = badd(g.now, hr)
-	case x < 0.96:
+	case x < 0.985:
 		t = badd(g.now, bmul(hr, int64(2+g.pick(100))))
 	default:
 		t = badd(g.now, bmul(hr, 24*int64(30+g.pick(200))))
@@ -282,6 +282,35 @@ func (g *Gen) byteLadder(quota *big.Int) *big.Int {
 		xs = append(xs, quota, new(big.Int).Div(quota, big.NewInt(2)), new(big.Int).Div(quota, big.NewInt(3)), big.NewInt(987654321))
 	}
 	return xs[g.pick(len(xs))]
+}
+
+// fit a price list into the current bounds (most of the time)
+func fitBounds(cs []Coin, mx, mn sdk.Coins) []Coin {
+	out := []Coin{}
+	have := map[int]bool{}
+	for _, c := range cs {
+		if c.Denom == 0 {
+			out = append(out, c)
+			continue
+		}
+		lo, hi := mn.AmountOf(denomName(c.Denom)), mx.AmountOf(denomName(c.Denom))
+		if !hi.IsZero() && c.Amount.Cmp(hi.BigInt()) > 0 {
+			c.Amount = hi.BigInt()
+		}
+		if c.Amount.Cmp(lo.BigInt()) < 0 {
+			c.Amount = lo.BigInt()
+		}
+		have[c.Denom] = true
+		out = append(out, c)
+	}
+	for _, m := range mn {
+		d := denomNum(m.Denom)
+		if !have[d] {
+			out = append(out, Coin{d, m.Amount.BigInt()})
+		}
+	}
+	sort.Slice(out, func(i, j int) bool { return out[i].Denom < out[j].Denom })
+	return out
 }
 
 func (g *Gen) priceList() ([]Coin, bool) {
@@ -392,9 +421,34 @@ func (g *Gen) genTx() []string {
 		k string
 		w int
 	}{
-		{"prov_register", 5}, {"prov_update", 4}, {"node_register", 7}, {"node_update_details", 4}, {"node_update_status", 9},
-		{"node_subscribe", 12}, {"plan_create", 6}, {"plan_update_status", 6}, {"plan_link", 7}, {"plan_unlink", 2},
-		{"plan_subscribe", 9}, {"sub_cancel", 5}, {"sub_allocate", 8}, {"sess_start", 14}, {"sess_update", 12}, {"sess_end", 6}, {"swap", 4},
+		{"prov_register", 4}, {"prov_update", 3}, {"node_register", 5}, {"node_update_details", 3}, {"node_update_status", 9},
+		{"node_subscribe", 14}, {"plan_create", 4}, {"plan_update_status", 6}, {"plan_link", 6}, {"plan_unlink", 1},
+		{"plan_subscribe", 9}, {"sub_cancel", 3}, {"sub_allocate", 8}, {"sess_start", 18}, {"sess_update", 14}, {"sess_end", 6}, {"swap", 3},
+	}
+	// availability: an operation whose prerequisite does not exist yet is mostly pointless
+	need := map[string]bool{
+		"prov_update": len(provs) > 0, "node_update_details": len(nodes) > 0, "node_update_status": len(nodes) > 0,
+		"node_subscribe": len(nodes) > 0, "plan_create": len(provs) > 0, "plan_update_status": len(plans) > 0,
+		"plan_link": len(plans) > 0 && len(nodes) > 0, "plan_unlink": len(plans) > 0, "plan_subscribe": len(plans) > 0,
+		"sub_cancel": len(subs) > 0, "sub_allocate": len(subs) > 0, "sess_start": len(subs) > 0,
+		"sess_update": len(sessions) > 0, "sess_end": len(sessions) > 0,
+	}
+	for i := range ws {
+		if ok, has := need[ws[i].k]; has && !ok {
+			ws[i].w = 1
+		}
+	}
+	if len(nodes) < 2 {
+		ws[2].w = 30
+	}
+	if len(nodes) >= 4 {
+		ws[2].w = 1
+	}
+	if len(plans) >= 3 {
+		ws[6].w = 1
+	}
+	if len(provs) < 1 {
+		ws[0].w = 20
 	}
 	tot := 0
 	for _, w := range ws {
@@ -417,6 +471,19 @@ func (g *Gen) genTx() []string {
 		}
 		return nodes[g.pick(len(nodes))].GetAddress()
 	}
+	activeNodeAddr := func() []byte {
+		act := [][]byte{}
+		for _, n := range nodes {
+			if n.Status == hubtypes.StatusActive {
+				act = append(act, n.GetAddress())
+			}
+		}
+		if len(act) == 0 || g.chance(0.1) {
+			return nodeAddr()
+		}
+		return act[g.pick(len(act))]
+	}
+	_ = activeNodeAddr
 	denom := func() string {
 		if g.chance(0.04) {
 			return "0"
@@ -435,10 +502,18 @@ func (g *Gen) genTx() []string {
 	case "node_register":
 		gbp, n1 := g.priceList()
 		hrp, n2 := g.priceList()
+		if np := vk.Node.GetParams(ctx); g.chance(0.85) && !n1 && !n2 {
+			gbp = fitBounds(gbp, np.MaxGigabytePrices, np.MinGigabytePrices)
+			hrp = fitBounds(hrp, np.MaxHourlyPrices, np.MinHourlyPrices)
+		}
 		return []string{kind, g.maybeHostile(g.ta('a', a.Bytes), 0.05).Tok(), coinsTok(gbp, n1), coinsTok(hrp, n2), strTok(g.urlStr()), "0"}
 	case "node_update_details":
 		gbp, n1 := g.priceList()
 		hrp, n2 := g.priceList()
+		if np := vk.Node.GetParams(ctx); g.chance(0.85) && !n1 && !n2 {
+			gbp = fitBounds(gbp, np.MaxGigabytePrices, np.MinGigabytePrices)
+			hrp = fitBounds(hrp, np.MaxHourlyPrices, np.MinHourlyPrices)
+		}
 		if g.chance(0.4) {
 			gbp, n1 = nil, true
 		}
@@ -447,11 +522,24 @@ func (g *Gen) genTx() []string {
 		}
 		return []string{kind, g.maybeHostile(g.ta('n', nodeAddr()), h).Tok(), coinsTok(gbp, n1), coinsTok(hrp, n2), strTok(g.urlStr()), "0"}
 	case "node_update_status":
-		return []string{kind, g.maybeHostile(g.ta('n', nodeAddr()), h).Tok(), st(1, 1, 1, 3, 2, 0)}
+		return []string{kind, g.maybeHostile(g.ta('n', nodeAddr()), h).Tok(), st(1, 1, 1, 1, 1, 1, 1, 3, 3, 2, 0)}
 	case "node_subscribe":
 		gbv, hrv := int64(0), int64(0)
 		np := vk.Node.GetParams(ctx)
-		if g.chance(0.5) {
+		lease := false
+		if len(plans) > 0 && g.chance(0.3) {
+			// a plan's provider leases a linked node by the hour (needed for sessions on plan subscriptions)
+			pl := plans[g.pick(len(plans))]
+			lnk := vk.Node.GetNodesForPlan(ctx, pl.ID)
+			if len(lnk) > 0 {
+				lease = true
+				a = Actor{Bytes: pl.GetProviderAddress()}
+				n := lnk[g.pick(len(lnk))]
+				nodes = nodes[:0]
+				nodes = append(nodes, n)
+			}
+		}
+		if g.chance(0.5) && !lease {
 			gbv = np.MinSubscriptionGigabytes + int64(g.pick(int(np.MaxSubscriptionGigabytes-np.MinSubscriptionGigabytes+1)))
 		} else {
 			span := np.MaxSubscriptionHours - np.MinSubscriptionHours + 1
@@ -476,7 +564,18 @@ func (g *Gen) genTx() []string {
 		case 5:
 			gbv, hrv = 0, np.MinSubscriptionHours-1
 		}
-		return []string{kind, g.maybeHostile(g.ta('a', a.Bytes), 0.03).Tok(), g.maybeHostile(g.ta('n', nodeAddr()), 0.06).Tok(), fmt.Sprint(gbv), fmt.Sprint(hrv), denom()}
+		na := activeNodeAddr()
+		dd := denom()
+		if n, ok := vk.Node.GetNode(ctx, na); ok && g.chance(0.85) {
+			ps := n.GigabytePrices
+			if hrv != 0 {
+				ps = n.HourlyPrices
+			}
+			if len(ps) > 0 {
+				dd = fmt.Sprint(denomNum(ps[g.pick(len(ps))].Denom))
+			}
+		}
+		return []string{kind, g.maybeHostile(g.ta('a', a.Bytes), 0.03).Tok(), g.maybeHostile(g.ta('n', na), 0.06).Tok(), fmt.Sprint(gbv), fmt.Sprint(hrv), dd}
 	case "plan_create":
 		from := a.Bytes
 		if len(provs) > 0 && g.chance(0.9) {
@@ -503,7 +602,7 @@ func (g *Gen) genTx() []string {
 			from = p.GetProviderAddress()
 		}
 		if kind == "plan_update_status" {
-			return []string{kind, g.maybeHostile(g.ta('p', from), h).Tok(), fmt.Sprint(id), st(1, 1, 1, 3, 2, 0)}
+			return []string{kind, g.maybeHostile(g.ta('p', from), h).Tok(), fmt.Sprint(id), st(1, 1, 1, 1, 1, 1, 3, 2, 0)}
 		}
 		return []string{kind, g.maybeHostile(g.ta('p', from), h).Tok(), fmt.Sprint(id), g.maybeHostile(g.ta('n', nodeAddr()), 0.06).Tok()}
 	case "plan_subscribe":
@@ -511,7 +610,21 @@ func (g *Gen) genTx() []string {
 		for _, p := range plans {
 			ids = append(ids, p.ID)
 		}
-		return []string{kind, g.maybeHostile(g.ta('a', a.Bytes), 0.03).Tok(), fmt.Sprint(g.idOr(ids)), denom()}
+		actIds := []uint64{}
+		for _, p := range plans {
+			if p.Status == hubtypes.StatusActive {
+				actIds = append(actIds, p.ID)
+			}
+		}
+		if len(actIds) > 0 && g.chance(0.9) {
+			ids = actIds
+		}
+		pid := g.idOr(ids)
+		dd := denom()
+		if pl, ok := vk.Plan.GetPlan(ctx, pid); ok && g.chance(0.85) && len(pl.Prices) > 0 {
+			dd = fmt.Sprint(denomNum(pl.Prices[g.pick(len(pl.Prices))].Denom))
+		}
+		return []string{kind, g.maybeHostile(g.ta('a', a.Bytes), 0.03).Tok(), fmt.Sprint(pid), dd}
 	case "sub_cancel", "sub_allocate":
 		ids := []uint64{}
 		for _, s := range subs {
@@ -541,7 +654,9 @@ func (g *Gen) genTx() []string {
 	case "sess_start":
 		ids := []uint64{}
 		for _, s := range subs {
-			ids = append(ids, s.GetID())
+			if s.GetStatus() == hubtypes.StatusActive || g.chance(0.1) {
+				ids = append(ids, s.GetID())
+			}
 		}
 		id := g.idOr(ids)
 		from := a.Bytes
